@@ -7,6 +7,7 @@ import (
 	"fmt"
 	"io"
 	"math"
+	"regexp"
 	"strconv"
 	"strings"
 )
@@ -50,6 +51,13 @@ const (
 	myCapPluginAuth     = 0x00080000
 	myCapPluginAuthLenc = 0x00200000
 	myCapDeprecateEOF   = 0x01000000
+)
+
+var (
+	mySetVarRe  = regexp.MustCompile(`(?is)^\s*set\s+@([a-z0-9_]+)\s*:?=\s*'((?:[^']|'')*)'\s*;?\s*$`)
+	myPrepareRe = regexp.MustCompile(`(?is)^\s*prepare\s+([a-z0-9_]+)\s+from\s+(?:@([a-z0-9_]+)|'((?:[^']|'')*)')\s*;?\s*$`)
+	myExecuteRe = regexp.MustCompile(`(?is)^\s*execute\s+([a-z0-9_]+)\s*;?\s*$`)
+	myDeallocRe = regexp.MustCompile(`(?is)^\s*(?:deallocate|drop)\s+prepare\s+([a-z0-9_]+)\s*;?\s*$`)
 )
 
 // MyPacketLog records one MySQL packet as the simulated server saw or sent it.
@@ -332,6 +340,8 @@ func (db *PgDB) ServeMySQL(conn io.ReadWriter) error {
 	}
 	stmts := map[uint32]*myStmt{}
 	nextID := uint32(1)
+	userVars := map[string]string{}
+	sqlPrepared := map[string]string{}
 	for {
 		c.seq = 0
 		pkt, err := c.readPacket()
@@ -358,7 +368,50 @@ func (db *PgDB) ServeMySQL(conn io.ReadWriter) error {
 		case 0x03: // COM_QUERY
 			db.Statements = append(db.Statements, string(body))
 			db.emitMyExtras()
-			sql, _ := translateMySQL(string(body))
+			text := string(body)
+			// SQL-level prepared statements: SET @v = '<text>', PREPARE s FROM @v | '<text>', EXECUTE s, DEALLOCATE PREPARE s
+			if m := mySetVarRe.FindStringSubmatch(text); m != nil {
+				userVars[strings.ToLower(m[1])] = strings.ReplaceAll(m[2], "''", "'")
+				if err := c.ok(0); err != nil {
+					return err
+				}
+				continue
+			}
+			if m := myPrepareRe.FindStringSubmatch(text); m != nil {
+				src, known := strings.ReplaceAll(m[3], "''", "'"), m[3] != "" || m[2] == ""
+				if m[2] != "" {
+					src, known = userVars[strings.ToLower(m[2])]
+				}
+				if !known {
+					if err := c.err(1064, "42000", "You have an error in your SQL syntax: the variable holds no statement"); err != nil {
+						return err
+					}
+					continue
+				}
+				sqlPrepared[strings.ToLower(m[1])] = src
+				if err := c.ok(0); err != nil {
+					return err
+				}
+				continue
+			}
+			if m := myDeallocRe.FindStringSubmatch(text); m != nil {
+				delete(sqlPrepared, strings.ToLower(m[1]))
+				if err := c.ok(0); err != nil {
+					return err
+				}
+				continue
+			}
+			if m := myExecuteRe.FindStringSubmatch(text); m != nil {
+				src, known := sqlPrepared[strings.ToLower(m[1])]
+				if !known {
+					if err := c.err(1243, "HY000", "Unknown prepared statement handler ("+m[1]+") given to EXECUTE"); err != nil {
+						return err
+					}
+					continue
+				}
+				text = src
+			}
+			sql, _ := translateMySQL(text)
 			res := db.exec(sql, nil, nil)
 			if err := db.sendMyResult(c, res, false, deprecateEOF); err != nil {
 				return err
